@@ -30,9 +30,14 @@ Definition canon_path (url_path : str) : res str :=
   | OutOfModel => OutOfModel
   end.
 
-Definition rule_matches (path : str) (r : rule) : bool :=
-  prefixb (ru_prefix r) path || prefixb (ru_prefix r) (path ++ [ch_slash]).
-Definition find_rule (rules : list rule) (path : str) : option rule := find (rule_matches path) rules.
+Definition find_rule (rules : list rule) (loc : str) : option rule := find (fun r => prefixb (ru_prefix r) loc) rules.
+
+(* _candidate_locations: the path as a file, as a directory, and the directory's index files *)
+Definition index_names : list str := [lit "index.gmi"; lit "index.gemini"].
+Definition rstrip_slashes (s : str) : str := rstrip_by (fun c => c =? ch_slash) s.
+Definition candidates (p : str) : list str :=
+  let base := rstrip_slashes p in
+  (match base with [] => [] | _ => [base] end) ++ [base ++ [ch_slash]] ++ map (fun n => base ++ ch_slash :: n) index_names.
 
 Inductive verdict := Allow | Deny60 | Deny61.
 Definition apply_rule (r : option rule) (fp : option str) : verdict :=
@@ -47,9 +52,14 @@ Definition apply_rule (r : option rule) (fp : option str) : verdict :=
                   end
       end
   end.
+Fixpoint first_denial (rules : list rule) (locs : list str) (fp : option str) : verdict :=
+  match locs with
+  | [] => Allow
+  | l :: r => match apply_rule (find_rule rules l) fp with Allow => first_denial rules r fp | v => v end
+  end.
 Definition decide (rules : list rule) (url_path : str) (fp : option str) : res verdict :=
   match canon_path url_path with
-  | Ok p => Ok (apply_rule (find_rule rules p) fp)
+  | Ok p => Ok (first_denial rules (candidates p) fp)
   | Err k m => Err k m
   | OutOfModel => OutOfModel
   end.
